@@ -21,7 +21,6 @@ NA = {
 
 PENDING = {
     "C03": "claimed in DESIGN.md (prange-sim); check not built yet, will move to checks when it is",
-    "C04": "claimed in DESIGN.md (history-sim); check not built yet",
     "C09": "claimed in DESIGN.md (timer-sim); check not built yet",
     "C13": "claimed in DESIGN.md (noise-sim); check not built yet",
     "C15": "claimed in DESIGN.md (alias-sim); check not built yet",
@@ -30,6 +29,12 @@ PENDING = {
 }
 
 CHECKS = {
+    "C04": dict(
+        engine="history-sim", design_ref="DESIGN.md 4.2",
+        technique="deterministic simulation of a user session: seeded histories of public-API operations with injected environment events (gc, cache clears, dropped objects, poisoned re-allocation), each operation compared with the same call in a pristine forked interpreter under another hash seed",
+        text="Seeded histories of 4-25 operations (operators through five routes, interpolation, collections that re-link member data, evolution rates, solves, Poisson solves, measures) over small pools of grids, fields, boundary conditions and equations chosen to coincide in some attributes (equal geometry/different class, bounds -1 vs -2, value 0 vs derivative 0, same spec/distinct objects). After every operation the value is compared with a zygote child that imported pde and computed nothing, given the current field contents. Exploration: the space of histories is unbounded; the search is biased to attribute collisions, which is where cache keys fail.",
+        note="Trusts: the reference interpreter itself (same code, no history); numba backend in python mode (caches are Python-level and identical with JIT); comparison rtol 1e-9. sympy's own caches are warmed on both sides. Global configuration fixed per history.",
+    ),
     "C07": dict(
         engine="controller-sim", design_ref="DESIGN.md 4.3",
         technique="deterministic simulation of the run loop: seeded tracker schedules under a simulated wall clock (stall/jump/slow-node faults), differential oracle against the tracker-free run and the single-step reference trajectory",
